@@ -48,7 +48,7 @@ def ties(ctx):
     out.append(common.run_tie('encskel-rand', [hs, 'rand', str(s + 500), '700' if q else '8000']))
     out.append(common.run_tie('encskel-gentoc', [hs, 'gentoc']))
     out.append(common.run_tie('encskel-fill', [hs, 'fill', str(s + 500), '0' if q else '1']))
-    out.append(common.run_tie('encskel-redsw', [_c05._h(ctx, 'plain'), 'redsw', str(s + 500), '250' if q else '5000']))
+    out.append(common.run_tie('encskel-redsw', [_c05._h(ctx, 'plain'), 'redsw', str(s + 500), '250' if q else '3000']))
     if not q:
         out.append(common.run_tie('encskel-sweep', [hs, 'sweep', str(s + 500), '1']))
         hf = _c05._h(ctx, 'fuzzing')
@@ -99,7 +99,7 @@ def _runs(ctx):
     runs = [('lockstep-san', [hs, 'lock', str(s), '400' if q else '6000']),
             ('lockstep', [hp, 'lock', str(s + 100), '2500' if q else '40000']),
             ('lockstep-fill', [hp, 'fill', str(s), '0' if q else '1']),
-            ('lockstep-redsw', [hp, 'redsw', str(s), '300' if q else '6000']),
+            ('lockstep-redsw', [hp, 'redsw', str(s), '300' if q else '4000']),
             ('lockstep-ms', [hp, 'ms', str(s), '500' if q else '8000']),
             ('lockstep-mssweep', [hp, 'mssweep', str(s), '0' if q else '1']),
             ('lockstep-ms-san', [hs, 'ms', str(s + 100), '100' if q else '1500'])]
